@@ -102,6 +102,12 @@ def parseStep (dk : String) (st : String) : Option (Input × String) :=
   | [sk, fault, s, d, nonce, rid, a1, a2] => (parseInput sk dk s d nonce rid a1 a2).map fun i => (i, fault)
   | _ => none
 
+/-- one deposit of `range`: kind,dst,nonce,rid,calldata,resp (the source domain is the handler's) -/
+def parseRangeStep (dk src : String) (st : String) : Option Input :=
+  match st.splitOn "," with
+  | [sk, d, nonce, rid, a1, a2] => parseInput sk dk src d nonce rid a1 a2
+  | _ => none
+
 def handle (op : String) (args : List String) (impl : String) : Option Verdict :=
   match op, args with
   | "relay", [sk, dk, s, d, nonce, rid, a1, a2] => some <| Id.run do
@@ -162,6 +168,21 @@ def handle (op : String) (args : List String) (impl : String) : Option Verdict :
       | none => false
     let mx := pl.foldl (fun a i => max a (itemLen i)) 0
     return ⟨showOut o, ok, s!"msg:{typ}>{dk}:{if wf then "fits" else "nofit"}:{outClass o}:maxfield{lenBucket mx}"⟩
+  -- several deposits in ONE polled range / ONE retried transaction: each comes out with its own identity and payload
+  | "range", [mode, dk, src, steps] => some <| Id.run do
+    let some parsed := (items steps ";").mapM (parseRangeStep dk src) | return bad
+    -- the deposits that yield a message, ordered by (nonce, destination) like the implementation's answer
+    let live := parsed.filter fun i => match relay i with
+      | .errSrc | .panicSrc => false
+      | _ => true
+    let sorted := live.mergeSort fun a b => a.id.nonce < b.id.nonce || (a.id.nonce == b.id.nonce && a.id.dst ≤ b.id.dst)
+    let model := joinOr (sorted.map fun i => showOut (relay i)) "|"
+    let outs := items impl "|"
+    let ok := outs.length == sorted.length && (sorted.zip outs).all fun (i, o) =>
+      match parseOut o with
+      | some x => decide (P01 i x)
+      | none => false
+    return ⟨model, ok, s!"range:{mode}:n={min parsed.length 6}:live={min sorted.length 6}"⟩
   -- ONE ETHDepositHandler over a sequence of deposits of different resources, the handler lookup failing at scripted steps
   | "hseq", [dk, steps] => some <| Id.run do
     let some parsed := (items steps ";").mapM (parseStep dk) | return bad
